@@ -36,11 +36,25 @@ def pregen(check):
     gold = open(gpath).read() if os.path.exists(gpath) else None
     if gold != q.stdout:
         open(gpath, "w").write(q.stdout)
+    # T1 for the pure string helpers of shp.go (shpFieldName2String, shpAttributeToFloat, shpAttributeToInt): harness/cmd/c16/extract/strfn.go
+    # translates them statement by statement (vocabulary GenStrLib.lean) into GenStr.lean; TieStr.lean proves generated = model.
+    with vcheck.Lock("go"):
+        t = subprocess.run(["go", "run", "./cmd/c16/extract", "-str", vcheck.REPO], cwd=vcheck.HARNESS, env=vcheck.GOENV,
+                           stdout=subprocess.PIPE, stderr=subprocess.PIPE, text=True)
+    spath = os.path.join(vcheck.LEAN, "GeomV", "C16", "GenStr.lean")
+    if t.returncode != 0 or "namespace GeomV.C16.GenStr" not in t.stdout:
+        check.broken.append("extractor harness/cmd/c16/extract -str failed on encoding/shp/shp.go: " + t.stderr.strip()[-300:])
+        return
+    if t.stderr.strip():
+        check.broken.append("extractor harness/cmd/c16/extract -str: construct outside the translated subset in encoding/shp/shp.go: " + t.stderr.strip()[-300:])
+    sold = open(spath).read() if os.path.exists(spath) else None
+    if sold != t.stdout:
+        open(spath, "w").write(t.stdout)
 
 
 CFG = {
     "id": "C16",
-    "lean_modules": ["GeomV.C16.Proofs", "GeomV.C16.LayoutProofs", "GeomV.C16.EndToEnd", "GeomV.C16.TieGeom", "GeomV.C16.ReflectProofs", "GeomV.C16.ProofsFields", "GeomV.C16.ShxProofs", "GeomV.C16.FloatCertProofs", "GeomV.C16.ProofsFloat", "GeomV.C16.WrapProofs", "GeomV.C16.ProofsStruct", "GeomV.C16.ProofsStructBytes", "GeomV.C16.ProofsSchedule"],
+    "lean_modules": ["GeomV.C16.Proofs", "GeomV.C16.LayoutProofs", "GeomV.C16.EndToEnd", "GeomV.C16.TieGeom", "GeomV.C16.ReflectProofs", "GeomV.C16.ProofsFields", "GeomV.C16.ShxProofs", "GeomV.C16.FloatCertProofs", "GeomV.C16.ProofsFloat", "GeomV.C16.WrapProofs", "GeomV.C16.ProofsStruct", "GeomV.C16.ProofsStructBytes", "GeomV.C16.ProofsSchedule", "GeomV.C16.TieStr"],
     "exe": "geomv_c16",
     "go_cmd": "c16",
     "stages": ["go:gen", "go:impl", "lean:judge"],
@@ -61,11 +75,13 @@ CFG = {
                                  "C16_float_cert", "C16_float_cert_rne", "C16_float_text", "C16_float_universal", "C16_float_nonfinite", "C16_floatCellCert_all", "C16_floatFmt_instance", "C16_float_unconditional", "C16_struct_roundtrip_float",
                                  "C16_struct_file_roundtrip", "C16_callOK_written", "C16_match_any", "Matches_self", "C16_struct_roundtrip_matched", "reparse_close", "Layout.C16_struct_bytes_roundtrip", "C16_schedule_written", "C16_mixed_file_roundtrip", "writeLenient_eq_strict",
                                  "Wrap.createW_none_iff", "Wrap.createW_within", "Wrap.encodeFieldsW_within", "Wrap.runW_within", "Wrap.encodeFieldsW_panics", "Wrap.cellOffW_nonneg", "Wrap.readAttributeW_within", "Wrap.wrap_regimes",
+                                 "GenStr.tie_shpFieldName2String", "GenStr.tie_shpAttributeToFloat", "GenStr.tie_shpAttributeToInt", "GenStr.tie_numText",
                                  "Gen.tie_widths", "Gen.tie_columns", "Gen.tie_lookup", "Gen.tie_cuts", "Gen.tie_write_order"]],
     "trusted_base": [
         "Lean 4.33.0 kernel; axioms of every theorem printed by #print axioms must be within {propext, Classical.choice, Quot.sound}",
         "harness/cmd/c16/extract (go/ast, ~300 lines) transcribes constants, lookup order, cut sets and write order of encoding/shp/shp.go into Gen.lean faithfully",
         "harness/cmd/c16/extract/geom.go (go/ast, statement level) translates the functions of encoding/shp/shp2geom.go into GenGeom.lean faithfully; vocabulary GenGeomLib.lean (Go int as Int without 64-bit overflow, []int32 parts as Nat, make/index/append with faults, for/range loops); TieGeom.lean proves generated = model",
+        "harness/cmd/c16/extract/strfn.go (go/ast, statement level) translates shpFieldName2String, shpAttributeToFloat, shpAttributeToInt of encoding/shp/shp.go into GenStr.lean faithfully; vocabulary GenStrLib.lean (Go int as Int, byte strings as lists, error as Bool, slice bounds fault, bytes.Trim/Index/TrimSpace, strconv.ParseFloat/ParseInt = the model's parsers at 64 bits / base 10); TieStr.lean proves generated = model",
         "model lean/GeomV/C16/Model.lean is tied to /repo/encoding/shp/{shp.go,shp2geom.go} by the correspondence run through real temporary shapefiles (both encoder and both decoder paths, token-exact) on every check",
         "go-shp's .shp/.shx/.dbf byte layout (github.com/jonas-p/go-shp, pinned by go.sum h1:h5O7ee4tlSPVjdC75eSLX7jXZiHftthuHio/GtrhaSM=, checked by the harness at run time) is transcribed in lean/GeomV/C16/Layout.lean and tied by comparing, for every case, the model's .shp/.shx/.dbf bytes with the bytes of the real temporary files (exact) and the real bytes read back through the layout reader with the abstract row store; that the layout implements the row store is proved (Layout.C16_container); encoding/binary, os.File Seek/Write semantics (a gap past the end reads as zeros) are trusted",
         "Go strconv (Itoa/ParseInt/FormatFloat 'f'/ParseFloat correctly rounded), strings.Trim/ToLower, reflect behave as documented; that a FormatFloat('f',p) text read by a correctly rounding parser is within 10^-p of the value is no longer assumed but proved on the model (C16_float_universal, C16_floatFmt_instance; parser = C17 Dec.toBits, proved IEEE round-to-nearest-even)",
